@@ -153,6 +153,20 @@ Print Assumptions token_handmade_genesis_can_panic.
 
 Example token_nonvacuous : invb wit_s = true /\ query_by_mu wit_s 2 = Some (wit_tok 1 2).
 Proof. split; vm_compute; reflexivity. Qed.
+
+(** the code as it was (before "fix: token MsgUpdateParams rejects an issue fee denominated in an unregistered
+    symbol"; clause 5 of the check, corpus/C12/token-params-fee-denom-unregistered.jsonl): the theorems above hold
+    for states satisfying [invb], whose last clause says the issue-fee denom is a registered symbol.
+    MsgUpdateParams only ran Params.Validate, so the authority could name an unregistered symbol; the chain was then
+    in a state ([pf_s 3]: everything else of the invariant holds) whose export validates and whose import panics
+    ("Token ... does not exist").  With a registered symbol ([pf_s 1]) — all the repaired code accepts — the
+    invariant holds. *)
+Theorem token_import_total_refuted_after_param_change :
+  invb (pf_s 1) = true
+  /\ invb_core (pf_s 3) = true /\ fee_registered (pf_s 3) = false
+  /\ validate false (export (pf_s 3)) = true /\ import false (export (pf_s 3)) = None.
+Proof. exact token_import_total_refuted_after_param_change_lemma. Qed.
+Print Assumptions token_import_total_refuted_after_param_change.
 End TokenC12.
 
 (** ** nft: all four hold *)
@@ -476,6 +490,17 @@ Print Assumptions htlc_handmade_genesis_can_panic.
 
 Example htlc_nonvacuous : invb true wit_s = true /\ validate true (export wit_s) = true.
 Proof. split; vm_compute; reflexivity. Qed.
+
+(** KNOWN FINDING (clause 7 of the check, corpus/C12/htlc-params-*.jsonl): the four theorems above hold for states
+    satisfying [invb], i.e. as long as the asset parameters are not changed (Genesis/LinkHtlc.v derives [invb] for
+    exactly those histories).  A MsgUpdateParams only validates the new parameter set by itself, and can leave the
+    chain in a state — an asset dropped while its supply record is stored, an asset deactivated under an open
+    transfer, a limit cut below the current supply — whose export validates and whose import panics. *)
+Theorem htlc_import_total_refuted_after_param_change :
+  Forall (fun s : state => invb_core s = true /\ params_cover s = false /\ validate true (export s) = true /\ import true (export s) = None)
+         [pc_dropped; pc_inactive; pc_cut].
+Proof. exact htlc_import_total_refuted_after_param_change_lemma. Qed.
+Print Assumptions htlc_import_total_refuted_after_param_change.
 End HtlcC12.
 
 (** ** mt: all four hold (the owners part of the export compared exactly, in store key order).
@@ -545,3 +570,10 @@ Theorem random_model_passes_check :
     Genesis.Random.check_random (Genesis.Random.mkCase h tbl [PassCheck.PRandom.model_run s]) = (-1, -1, 0).
 Proof. exact PassCheck.PRandom.random_model_passes_check. Qed.
 Print Assumptions random_model_passes_check.
+
+(** htlc (as-is path): the model's run imports into the exported state without its closed contracts *)
+Theorem htlc_model_passes_check :
+  forall (h : Z) (s : Genesis.Htlc.state), Genesis.Htlc.invb true s = true ->
+    Genesis.Htlc.check_htlc (Genesis.Htlc.mkCase h [PassCheck.PHtlc.model_run s]) = (-1, -1, 0).
+Proof. exact PassCheck.PHtlc.htlc_model_passes_check. Qed.
+Print Assumptions htlc_model_passes_check.
